@@ -207,6 +207,32 @@ class C14(flow.Spec):
         h.update((pat * (rest // 256 + 1))[:rest])
         return f"big {algo} {form} {h.hexdigest()} {n} {a} {b}"
 
+    def bigz_line(self, algo, form, n):
+        """sparse message in a MAP_NORESERVE mapping: bytes 1,2,3, zeros, and 16 bytes 0x40+(n-i) at the end"""
+        h = hashlib.new(algo)
+        h.update(bytes([1, 2, 3]))
+        z = bytes(1 << 20)
+        left = n - 3 - 16
+        while left > 0:
+            k = min(left, len(z))
+            h.update(z[:k])
+            left -= k
+        h.update(bytes(0x40 + (n - i) for i in range(n - 16, n)))
+        return f"bigz {algo} {form} {h.hexdigest()} {n}"
+
+    def size_witness_cases(self, rng, label):
+        """size-dependent slips (32-bit counters / masks): one process() call of 512 MiB+ for every class, a 4 GiB+
+        message for both SipHash variants.  No real memory is used; about a minute under ASan."""
+        cs = []
+        for algo in ALGOS:
+            form = rng.choice(["ptr-hex", "fn-hex", "ctor-hex"])
+            cs.append([f"case {label}-{algo}", self.bigz_line(algo, form, (1 << 29) + 64 * rng.randrange(1, 9) + rng.randrange(64))])
+        key = bytes(range(16)).hex()
+        n = (1 << 32) + 8 * rng.randrange(1, 50) + rng.randrange(1, 8)
+        # (the dispatching siphash() is siphash_sse2 on this platform and is covered by the small `sip auto` lines)
+        cs.append([f"case {label}-siphash", f"sipz plain {key} {n}", f"sipz sse2 {key} {n}"])
+        return cs
+
     def sip_line(self, rng, variant, key, ka, msg, ma):
         exp = siphash24(key, msg)
         return f"sip {variant} {exp:016x} {ka} {key.hex()} {ma} {msg.hex() if msg else '-'}"
@@ -216,6 +242,10 @@ class C14(flow.Spec):
         cs = []
         quick = tier == "quick"
         cid = [0]
+        if round_no == 1:
+            # first search round (something no longer checks, e.g. a text normal form differs): look for
+            # size-dependent slips before falling back to more random small messages
+            return self.size_witness_cases(rng, "size-witness")
 
         def case(lines):
             cid[0] += 1
@@ -256,6 +286,7 @@ class C14(flow.Spec):
             case([self.big_line(rng.choice(ALGOS), rng.choice(["sv-hex", "ctorsv-hex", "fnsv-hex"]),
                                 rng.choice([(1 << 20) + 3, (1 << 22) - 1]), 7, 3)])
             if not quick:
+                cs.extend(self.size_witness_cases(rng, "size"))
                 import glob
                 for p in sorted(glob.glob(os.path.join(core.VERIF, "replays", "C14", "corpus_thorough", "*.ops"))):
                     cs.extend(core.split_cases([l.rstrip("\n") for l in open(p) if l.strip() and not l.startswith("#")]))
@@ -275,7 +306,7 @@ class C14(flow.Spec):
     # ------------------------------------------------------------------ comparison / bookkeeping
     def compare(self, op, impl, model):
         t = op.split()
-        if t and t[0] == "big":
+        if t and t[0] in ("big", "bigz", "sipz"):
             return True          # too large for the list-based model; the oracle (hashlib) judges the real code
         if not t or t[0] not in ("d", "sip"):
             return impl == model
